@@ -1,5 +1,5 @@
 (* C10 -- Close and reopen is lossless: the serialised forms decode to what was encoded. *)
-From VF Require Import Region Freelist RegionProofs CodecProofs Meta MetaProofs BytesProofs.
+From VF Require Import Region Freelist RegionProofs CodecProofs Meta MetaProofs BytesProofs Pages PagesProofs.
 
 (* free-list entries: every region with 1 <= count < 2^32 (short form, and the 12-byte form from 255
    pages on) and 0 <= id < 2^55 *)
@@ -22,6 +22,29 @@ Proof. exact header_roundtrip. Qed.
 Theorem C10_le_roundtrip : forall n v, 0 <= v < 256 ^ (Z.of_nat n) -> le_decode (le_encode n v) = v.
 Proof. exact le_decode_encode. Qed.
 
+(* the linked meta pages: what the paging writer wrote (any number of pages, entries never straddling a page,
+   pre-allocated pages that stay empty) is what the open path reads back - the same chain of page ids and
+   the same entries in the same order; for every disk that holds the written pages *)
+Theorem C10_freelist_pages_roundtrip : forall ps ids metaList dataList pages d fuel,
+  ids <> [] -> Forall (fun id => 0 < id < 2^64) ids ->
+  Forall valid_region metaList -> Forall valid_region dataList ->
+  Z.of_nat (length metaList + length dataList) < 2^32 ->
+  write_freelists ps ids metaList dataList = Some pages ->
+  (forall id pg, In (id, pg) pages -> d id = Some pg) -> (length ids <= fuel)%nat ->
+  read_freelist fuel d (hd 0 ids) = Some (ids, map (pair true) metaList ++ map (pair false) dataList).
+Proof. exact freelist_pages_roundtrip. Qed.
+Print Assumptions C10_freelist_pages_roundtrip.
+
+Theorem C10_mapping_pages_roundtrip : forall ps ids mapping pages d fuel,
+  ids <> [] -> Forall (fun id => 0 < id < 2^64) ids ->
+  Forall (fun kv => 0 <= fst kv < 2^56 /\ 0 <= snd kv < 2^56) mapping ->
+  Z.of_nat (length mapping) < 2^32 ->
+  write_wal ps ids mapping = Some pages ->
+  (forall id pg, In (id, pg) pages -> d id = Some pg) -> (length ids <= fuel)%nat ->
+  read_wal fuel d (hd 0 ids) = Some (ids, mapping).
+Proof. exact wal_pages_roundtrip. Qed.
+Print Assumptions C10_mapping_pages_roundtrip.
+
 (* normal form: the lists rebuilt on open (sort + MergeAdjacent of what was read) describe the same
    page sets with the same page counts as the lists that were written *)
 Theorem C10_merge_adjacent_same_set : forall l lo, wfl lo l ->
@@ -39,3 +62,15 @@ Print Assumptions C10_idlist_regions.
 Example C10_ex : decode_region (encode_region true {| rid := 123456789; rcount := 255 |} ++ [1;2;3]) =
                  (true, {| rid := 123456789; rcount := 255 |}, 12).
 Proof. vm_compute. reflexivity. Qed.
+
+(* non-vacuity of the page round trip: 48-byte pages (36 bytes of payload), two regions need two pages *)
+Definition ex_pages := write_freelists 48 [5; 9; 11] [{| rid := 3; rcount := 2 |}] [{| rid := 7; rcount := 1 |}; {| rid := 20; rcount := 300 |}; {| rid := 400; rcount := 2 |}].
+Definition ex_disk (pages : list (Z * page)) : pdisk :=
+  fun id => match find (fun p => fst p =? id) pages with Some (_, pg) => Some pg | None => None end.
+Example C10_ex_pages : match ex_pages with
+  | Some pages => map fst pages = [5; 9; 11] /\
+      read_freelist 3 (ex_disk pages) 5 =
+        Some ([5; 9; 11], [(true, {| rid := 3; rcount := 2 |}); (false, {| rid := 7; rcount := 1 |});
+                           (false, {| rid := 20; rcount := 300 |}); (false, {| rid := 400; rcount := 2 |})])
+  | None => False end.
+Proof. vm_compute. split; reflexivity. Qed.
